@@ -283,7 +283,7 @@ class TeeSys:
 
 # --------------------------------------------------------------------------- TLC side
 
-INVS = ["PrefixOrder", "Complete", "FetchOnce", "NoOverlap", "BufExact", "LockFree"]
+INVS = ["PrefixOrder", "Complete", "FetchOnce", "NoOverlap", "BufExact", "LockFree", "NoStuck"]
 DEMAND_INVS = INVS + ["Retention", "CloseOnce"]
 
 
